@@ -268,6 +268,22 @@ Theorem C13_outer_rcancels_live : forall g es s i n, orun (oinit g) es = Some s 
 Proof. exact outer_rcancels_live. Qed.
 Print Assumptions C13_outer_rcancels_live.
 
+(* REGISTRATIONS COME ONLY WITH A GRANT (any state, any event).  What the lock "holds" for a reader
+   is an entry of rcancels and one count of the WaitGroup that writers wait for.  An entry that is
+   new after a step was made by Run's registration step for a reader request, and that same step
+   counts the WaitGroup up by one and posts the grant of that very record into the requesting
+   thread's response cell; no other event adds one.  Together with C13_outer_error_holds_nothing
+   (the three error returns of RLock touch neither rcancels nor the WaitGroup) and
+   C13_outer_rcancels_live: an RLock that reports an error has registered nothing.  The harness
+   observes len(rcancels) at every quiescent point against the readers that were told "nil". *)
+Theorem C13_outer_entry_only_with_grant : forall s e s' p,
+  ostep s e = Some s' -> In p (rcs s') -> ~ In p (rcs s) ->
+  e = RunRegR /\ exists t c, runpc s = RunReg (HR t c) /\ snd p = length (recs s) /\
+                             fst p = rcx s /\ resps s' t = Some (PGrant (snd p)) /\
+                             wg s' = (wg s + 1)%Z.
+Proof. exact outer_entry_only_with_grant. Qed.
+Print Assumptions C13_outer_entry_only_with_grant.
+
 (* ---------------------------------- oracles ------------------------------------------- *)
 
 (* The boolean oracles evaluated on the implementation's observations decide the Spec
